@@ -2,6 +2,7 @@ package main
 
 import (
 	"fmt"
+	"os"
 	"reflect"
 
 	"github.com/cube2222/octosql/parser/sqlparser"
@@ -18,6 +19,9 @@ func probe(s string) {
 		fmt.Printf("%-60s => parse error: %v\n", s, err)
 		return
 	}
+	if os.Getenv("C30_DUMP") != "" {
+		fmt.Println(dump(reflect.ValueOf(t1), 0))
+	}
 	p := sqlparser.String(t1)
 	t2, err := sqlparser.Parse(p)
 	if err != nil {
@@ -25,4 +29,45 @@ func probe(s string) {
 		return
 	}
 	fmt.Printf("%-60s => %q equal=%v\n", s, p, reflect.DeepEqual(t1, t2))
+}
+
+func dump(v reflect.Value, depth int) string {
+	if !v.IsValid() || depth > 12 {
+		return "?"
+	}
+	switch v.Kind() {
+	case reflect.Ptr, reflect.Interface:
+		if v.IsNil() {
+			return "nil"
+		}
+		return dump(v.Elem(), depth+1)
+	case reflect.Struct:
+		out := v.Type().Name() + "{"
+		for i := 0; i < v.NumField(); i++ {
+			if v.Type().Field(i).PkgPath != "" {
+				if v.Type().Field(i).Type.Kind() == reflect.String {
+					out += v.Field(i).String() + " "
+				}
+				continue
+			}
+			f := v.Field(i)
+			if f.Kind() == reflect.String && f.Len() == 0 || (f.Kind() == reflect.Ptr || f.Kind() == reflect.Interface || f.Kind() == reflect.Slice) && f.IsNil() {
+				continue
+			}
+			out += v.Type().Field(i).Name + ":" + dump(f, depth+1) + " "
+		}
+		return out + "}"
+	case reflect.Slice:
+		if v.Type().Elem().Kind() == reflect.Uint8 {
+			return string(v.Bytes())
+		}
+		out := "["
+		for i := 0; i < v.Len(); i++ {
+			out += dump(v.Index(i), depth+1) + ", "
+		}
+		return out + "]"
+	case reflect.String:
+		return v.String()
+	}
+	return fmt.Sprint(v.Interface())
 }
